@@ -1,1 +1,6 @@
 import CuriesVerif.Properties.C01
+import CuriesVerif.Properties.C08
+import CuriesVerif.Properties.C07
+import CuriesVerif.Properties.C02
+import CuriesVerif.Properties.C03
+import CuriesVerif.Properties.C06
